@@ -405,6 +405,18 @@ func propCases(res *Result, prop, tier string, g *Gen, n int, batch int) []*Case
 		cases = append(cases, contractCases(g, n*4)...)
 	case "C03", "C06", "C12", "C15":
 		cases = append(cases, engineCases(g, n/3, true, prop != "C12")...)
+		if prop == "C03" || prop == "C12" {
+			// unsafe inputs of several KiB (caps, cuts and windows over a rendering land inside
+			// them): judged by the taint oracles only
+			g.longUnsafe = true
+			long := engineCases(g, n/25, true, false)
+			g.longUnsafe = false
+			for _, c := range long {
+				c.ID = "long" + c.ID
+				c.NoModel = true
+			}
+			cases = append(cases, long...)
+		}
 	case "C09":
 		cases = append(cases, engineCases(g, n/3, false, false)...)
 	case "FMT":
@@ -442,7 +454,13 @@ func processBatch(res *Result, prop, driver string, cases []*Case, distinct map[
 			res.DepthHist[fmt.Sprint(c.Rec.Depth())]++
 		}
 	}
-	model, err := runDriver(driver, cases)
+	var forModel []*Case
+	for _, c := range cases {
+		if !c.NoModel {
+			forModel = append(forModel, c)
+		}
+	}
+	model, err := runDriver(driver, forModel)
 	if err != nil {
 		res.Notes = append(res.Notes, "driver error: "+err.Error())
 	}
@@ -450,6 +468,12 @@ func processBatch(res *Result, prop, driver string, cases []*Case, distinct map[
 		m, ok := model[c.ID]
 		if !ok {
 			m = L(Sym("missing"))
+		}
+		if c.NoModel {
+			res.OracleEvals[prop+".direct_only_cases"]++
+			runOracles(res, prop, c)
+			c.Real, c.Err, c.Refs = SX{}, nil, nil
+			continue
 		}
 		if dbg := os.Getenv("VERIF_DEBUG_CASE"); dbg != "" && dbg == c.ID {
 			fmt.Fprintln(os.Stderr, "DEBUG REAL", c.Real.String())
